@@ -269,10 +269,10 @@ func buildEmbedded(c *xs.Ctx, b *builder) {
 		createProject(b, []types.Address{u1, u2}[i%2], fmt.Sprintf("proj-%d", i))
 		b.Ms(2)
 	}
-	// several epochs of 1 h: momentums 70 s apart until the contracts' update height (UpdateMinNumMomentums = 300) has
-	// passed and more than 5 h of chain time have elapsed; the next producer events run the epoch updates
+	// several epochs of 1 h: momentums 130 s apart until the contracts' update height (UpdateMinNumMomentums = 300) has
+	// passed and more than 10 h of chain time have elapsed; the next producer events run the epoch updates
 	for b.n.Height() < 320 {
-		b.M(6)
+		b.M(12)
 	}
 	b.Ms(6)
 	for _, u := range []types.Address{u1, u2, u3, u4, u5} {
